@@ -17,8 +17,6 @@ Lemma handler_frame_pos f p h x : handler_frame (set_pos f p) h x = handler_fram
 Proof. reflexivity. Qed.
 Lemma handler_frame_kept f f' h x : kept f f' -> handler_frame f' h x = handler_frame f h x.
 Proof. intros K. rewrite <- K. reflexivity. Qed.
-Lemma handler_frame_moved f f' h x : moved f f' -> handler_frame f' h x = handler_frame f h x.
-Proof. intros K. rewrite <- K. reflexivity. Qed.
 
 Lemma find_handler_app : forall inner ft rest k e, Forall (fun m => f_err m = None) inner -> f_err ft = Some e ->
   find_handler (inner ++ ft :: rest) k = Some (k + length inner).
